@@ -33,6 +33,37 @@ import (
 func init() {
 	c14SweepHook = c14Sweep
 	c14CmdHook = verifsync.SetContext
+	c14AttemptHook = c14ReplayAttempt
+}
+
+// c14ReplayAttempt re-runs recorded parties with the rendezvous for the recorded class cycle.
+func c14ReplayAttempt(parties []string, cycle string) (string, string) {
+	idx := map[string]int{}
+	for i, n := range verifsync.ClassNames {
+		idx[n] = i
+	}
+	names := strings.Split(cycle, ">")
+	var specs [][2]int
+	for i := 0; i+1 < len(names); i++ {
+		a, ok1 := idx[names[i]]
+		b, ok2 := idx[names[i+1]]
+		if !ok1 || !ok2 {
+			return "not-realised", hx([]byte("the tree no longer has the lock classes of the recorded cycle: " + cycle))
+		}
+		specs = append(specs, [2]int{a, b})
+	}
+	if len(specs) == 1 { // self-loop: two parties on the same edge
+		specs = append(specs, specs[0])
+	}
+	if len(specs) != len(parties) {
+		return "not-realised", hx([]byte("recorded parties do not match the recorded cycle"))
+	}
+	for try := 0; try < 3; try++ {
+		if cyc, log, dump := c14Attempt(parties, specs); cyc != nil {
+			return "deadlock", hx([]byte("wait-for cycle:\n" + strings.Join(cyc, "\n") + "\n\nrendezvous:\n" + strings.Join(log, "\n") + "\n\ngoroutines:\n" + dump))
+		}
+	}
+	return "not-realised", "-"
 }
 
 type c14Act struct {
@@ -155,7 +186,7 @@ func c14RunStep(idx int, s c14Step) string {
 		if len(held) == 0 {
 			return ""
 		}
-		if time.Since(t0) > 3*time.Second {
+		if time.Since(t0) > 10*time.Second {
 			verifsync.ForgetHeld()
 			return fmt.Sprintf("LEAK step %d (%s): still held after every session logged out and the server was closed:\n%s",
 				idx, c14StepText(s), strings.Join(held, "\n"))
